@@ -70,13 +70,12 @@ def rule_acceptance(repo, rep):
         names = [k[1] for k in cnd.lin.terms]
         # which one is also assigned in the same block (the best loss)?
         blk2 = astutil.parents(f.node).get(n)
-        sib = [s for s in getattr(blk2, 'body', [])
-               if isinstance(s, ast.Assign) and
-               isinstance(s.targets[0], ast.Name) and
-               isinstance(s.value, ast.Name)]
-        for s in sib:
-          if s.targets[0].id in names and s.value.id in names:
-            sb, cur = s.targets[0].id, s.value.id
+        sib = [(t_, v_.id) for s in getattr(blk2, 'body', [])
+               for (t_, v_) in astutil.assign_pairs(s)
+               if isinstance(v_, ast.Name)]
+        for (t_, vid) in sib:
+          if t_ in names and vid in names:
+            sb, cur = t_, vid
             want = Cmp(Lin({('n', cur): 1, ('n', sb): -1}), '<')
             if cnd == want:
               ok = True
@@ -166,9 +165,28 @@ def rule_spd_floor(repo, rep):
            '(w, V) = eigh(step result) and eps > 0')
   f = astutil.inline_helpers(repo, repo.get_func('lsml._BaseLSML._fit'))
   # evaluate the two statements symbolically
+  # np.clip(x, c, None) is np.maximum(x, c): one spelling for the evaluator
+  import copy as _copy
+
+  class _Clip(ast.NodeTransformer):
+    def visit_Call(self, node):
+      self.generic_visit(node)
+      if canon(repo.dotted(f.module, node.func) or '') == \
+              canon('numpy.clip') and len(node.args) == 3 and \
+              isinstance(node.args[2], ast.Constant) and \
+              node.args[2].value is None and not node.keywords:
+        new = ast.Call(func=ast.Attribute(value=ast.Name('np', ast.Load()),
+                                          attr='maximum', ctx=ast.Load()),
+                       args=node.args[:2], keywords=[])
+        return ast.copy_location(new, node)
+      return node
+  fn2 = _copy.deepcopy(f.node)
+  _Clip().visit(fn2)
+  ast.fix_missing_locations(fn2)
+  f = astutil._clone_func(f, fn2)
   cands = [n for n in ast.walk(f.node) if isinstance(n, ast.Assign) and
            isinstance(n.targets[0], ast.Name) and
-           isinstance(n.value, ast.Call) and 'maximum' in ast.unparse(n.value)]
+           'maximum' in ast.unparse(n.value)]
   if not cands:
     rep.unknown(R, 'lsml._BaseLSML._fit', site(f), 'eigenvalue floor not '
                 'found')
@@ -353,11 +371,28 @@ def rule_formulas(repo, rep):
   ret = [r for r in ast.walk(fl.node) if isinstance(r, ast.Return)]
   term = None
   wexpr = None
-  if ret and isinstance(ret[0].value, ast.Call) and \
-          isinstance(ret[0].value.func, ast.Attribute) and \
-          ret[0].value.func.attr == 'dot' and len(ret[0].value.args) == 1:
-    wexpr = ast.unparse(ret[0].value.func.value)
-    term = eval_expr(ret[0].value.args[0], {}, {}, env)
+  if ret:
+    # temporaries of the loss (residuals, weights, ...) are unfolded; the
+    # distances and the mask keep their role names
+    rv = astutil.unfold(ret[0].value, fl.node.body, ret[0],
+                        stop=('dab', 'dcd', 'violations'))
+    if isinstance(rv, ast.Call) and isinstance(rv.func, ast.Attribute) and \
+            rv.func.attr == 'dot' and len(rv.args) == 1:
+      a_, b_ = rv.func.value, rv.args[0]
+      if 'self.w_' in ast.unparse(b_) and 'self.w_' not in ast.unparse(a_):
+        a_, b_ = b_, a_
+      wexpr = ast.unparse(a_)
+      term = eval_expr(b_, {}, {}, env)
+    elif isinstance(rv, ast.Call) and \
+            canon(repo.dotted(fl.module, rv.func) or '') == \
+            canon('numpy.sum') and len(rv.args) == 1 and \
+            isinstance(rv.args[0], ast.BinOp) and \
+            isinstance(rv.args[0].op, ast.Mult):
+      a_, b_ = rv.args[0].left, rv.args[0].right
+      if 'self.w_' in ast.unparse(b_) and 'self.w_' not in ast.unparse(a_):
+        a_, b_ = b_, a_
+      wexpr = ast.unparse(a_)
+      term = eval_expr(b_, {}, {}, env)
   want_term = (sa - sc) * (sa - sc)
   if term is None:
     rep.unknown(R, 'lsml._BaseLSML._comparison_loss', site(fl), 'loss term '
@@ -392,7 +427,11 @@ def rule_formulas(repo, rep):
             isinstance(n.value.op, ast.Add):
       for side in (n.value.left, n.value.right):
         if isinstance(side, ast.Name):
-          rt[side.id] = 'reg_loss'
+          dfn = [v for (m_, v) in guards.assignments(ft.node, side.id)
+                 if v is not None]
+          if not (dfn and isinstance(dfn[0], ast.Call) and
+                  ast.unparse(dfn[0].func) == 'self._comparison_loss'):
+            rt[side.id] = 'reg_loss'
   ftv = astutil.role_view(ft, rt)
   if ftv is None:
     rep.unknown(R, 'lsml._BaseLSML._total_loss:regulariser', site(ft),
@@ -408,12 +447,18 @@ def rule_formulas(repo, rep):
               isinstance(n.value.op, ast.Add):
         for side, other in ((n.value.left, n.value.right),
                             (n.value.right, n.value.left)):
-          if isinstance(other, ast.Call) and \
-                  ast.unparse(other.func) == 'self._comparison_loss':
+          oth = astutil.unfold(other, ft.node.body, n)
+          if isinstance(oth, ast.Call) and \
+                  ast.unparse(oth.func) == 'self._comparison_loss':
             reg = [side]
   okr = reg and ast.unparse(reg[0]) in (
       'np.sum(metric * prior_inv) - sign * logdet',
+      "np.einsum('ij,ij->', metric, prior_inv) - sign * logdet",
+      "np.einsum('ij,ij', metric, prior_inv) - sign * logdet",
+      "np.einsum('ij,ji->', metric, prior_inv) - sign * logdet",
+      'np.sum(prior_inv * metric) - sign * logdet',
       'np.trace(metric.dot(prior_inv)) - sign * logdet',
+      'np.trace(metric @ prior_inv) - sign * logdet',
       'np.sum(metric * prior_inv) - logdet')
   rtxt = ast.unparse(reg[0]) if reg else ''
   wrong = 'np.trace(metric * prior_inv)' in rtxt or \
@@ -477,7 +522,40 @@ def rule_formulas(repo, rep):
         rep.derived(R, 'lsml._BaseLSML._gradient:alignment',
                     site(fg, loop[0]))
   scal = {wname: 'w'} if wname else {}
-  g = eval_expr(upd[0].value, scal, atoms, env)
+  genv = dict(env)
+  gatoms = dict(atoms)
+  uexpr = upd[0].value
+  # index form: `for i in np.flatnonzero(<mask>)` (or np.where(...)[0]) with
+  # every sequence subscripted by the same i
+  if loop and isinstance(loop[0].target, ast.Name):
+    iv = loop[0].target.id
+    it = loop[0].iter
+    src = None
+    if isinstance(it, ast.Call) and canon(
+            repo.dotted(fg.module, it.func) or '') == \
+            canon('numpy.flatnonzero') and len(it.args) == 1:
+      src = it.args[0]
+    elif isinstance(it, ast.Subscript) and isinstance(it.value, ast.Call) and \
+            canon(repo.dotted(fg.module, it.value.func) or '') in (
+                canon('numpy.where'), canon('numpy.nonzero')) and \
+            ast.unparse(it.slice) == '0' and len(it.value.args) == 1:
+      src = it.value.args[0]
+    mask_ok = src is not None and (
+        ast.unparse(src) in ('violations', 'dcds < dabs', 'dabs > dcds',
+                             'dcds <= dabs', 'dabs >= dcds'))
+    if mask_ok:
+      rep.derived(R, 'lsml._BaseLSML._gradient:alignment', site(fg, loop[0]))
+      uexpr = astutil.unfold(upd[0].value, loop[0].body, upd[0],
+                             stop=('dabs', 'dcds', 'vab', 'vcd', iv))
+      genv.update({'dabs[%s]' % iv: sa * sa, 'dcds[%s]' % iv: sc * sc})
+      scal['self.w_[%s]' % iv] = 'w'
+      gatoms['np.outer(vab[%s], vab[%s])' % (iv, iv)] = 'Vab'
+      gatoms['np.outer(vcd[%s], vcd[%s])' % (iv, iv)] = 'Vcd'
+    else:
+      rep.unknown(R, 'lsml._BaseLSML._gradient:alignment', site(fg, loop[0]),
+                  'loop over %s not recognised as the violated constraints'
+                  % ast.unparse(it))
+  g = eval_expr(uexpr, scal, gatoms, genv)
   w_ = Rat.sym('w')
   dterm_a = (want_term.diff('sa')) / (Rat.const(2) * sa)
   dterm_c = (want_term.diff('sc')) / (Rat.const(2) * sc)
